@@ -78,8 +78,8 @@ func main() {
 
 func body(w *run.Worker) {
 	t := tally{}
-	w.Cases("random", w.N(160000, 4000000), func(c *run.Case) {
-		r := c.Rng
+	w.Cases("random", w.N(200000, 4000000), func(c *run.Case) {
+		r := caseRng(c, w)
 		sc := genScenario(r)
 		cons := genConsumer(r, sc.size)
 		c.Desc("%v | %v", sc, cons)
@@ -119,6 +119,24 @@ func body(w *run.Worker) {
 		t.flush(w)
 	})
 	w.Exhaustive(fmt.Sprintf("small scope: digest sizes 0..%d x content variants x error positions x compositions x empty-chunk placements x EOF-with-data x constructors x sources x consumer list", maxSize), true)
+}
+
+func mix64(z uint64) uint64 {
+	z += 0x9e3779b97f4a7c15
+	z = (z ^ (z >> 30)) * 0xbf58476d1ce4e5b9
+	z = (z ^ (z >> 27)) * 0x94d049bb133111eb
+	return z ^ (z >> 31)
+}
+
+// caseRng derives the case's generator from c.Rng. lib/gen.New only XORs/adds
+// its seeds into the splitmix state, so (seed, worker, index) triples that
+// differ in a few low bits alias: observed at seed 1, all 8 workers drew
+// permutations of the same 25 000 random cases, and seeds 1/2/3/7 likewise.
+// The value drawn from c.Rng is therefore re-keyed with avalanched copies of
+// the worker index and the seed. Still a pure function of (seed, worker, group,
+// index): --replay reproduces the case.
+func caseRng(c *run.Case, w *run.Worker) *gen.Rng {
+	return gen.New(mix64(c.Rng.Uint64() ^ mix64(uint64(w.Index)+1) ^ mix64(mix64(w.Seed)+0xc09)))
 }
 
 // execute runs one (scenario, consumer) pair against the real code and hands
